@@ -32,7 +32,7 @@ fn is_validation_failed<T>(r: &Result<T>) -> bool {
 // into_matrix, Hornuss mode
 // ------------------------------------------------------------------------------------------------
 #[kani::proof]
-#[kani::unwind(66)]
+#[kani::unwind(195)]
 fn into_matrix_hornuss() {
     let p: [[f32; 3]; 3] = kani::any();
     let mut all_pos = true;
@@ -62,13 +62,14 @@ fn into_matrix_hornuss() {
     kani::cover!(r.is_ok());
     kani::cover!(r.is_err() && p[2][2] == 0.0 && p[0][0] > 0.0);
     kani::cover!(r.is_err() && p[1][1] < 0.0);
+    std::mem::forget(r); // (the drop glue of crate::Error is recursive through io::Error)
 }
 
 // ------------------------------------------------------------------------------------------------
 // into_matrix, DCT2 mode
 // ------------------------------------------------------------------------------------------------
 #[kani::proof]
-#[kani::unwind(66)]
+#[kani::unwind(195)]
 fn into_matrix_dct2() {
     let p: [[f32; 6]; 3] = kani::any();
     let mut all_pos = true;
@@ -105,6 +106,7 @@ fn into_matrix_dct2() {
     }
     kani::cover!(r.is_ok());
     kani::cover!(r.is_err() && p[2][5] == 0.0 && p[0][0] > 0.0);
+    std::mem::forget(r);
 }
 
 // ------------------------------------------------------------------------------------------------
@@ -161,14 +163,19 @@ fn parse_mode_guard() {
     } else {
         // reference: the same fields read one by one (Bitstream::read_f16_as_f32 is under contract bs.read_f16)
         let mut bs2 = Bitstream::new(&data);
-        let _ = bs2.read_bits(3);
+        if let Err(e) = bs2.read_bits(3) {
+            std::mem::forget(e);
+        }
         let mut want = [[0.0f32; 3]; 3];
         let mut bad = false;
         let mut k = 0;
-        while k < 9 {
+        while k < 9 && !bad {
             match bs2.read_f16_as_f32() {
-                Ok(x) if !bad => want[k / 3][k % 3] = x,
-                _ => bad = true,
+                Ok(x) => want[k / 3][k % 3] = x,
+                Err(e) => {
+                    std::mem::forget(e);
+                    bad = true;
+                }
             }
             k += 1;
         }
@@ -188,4 +195,5 @@ fn parse_mode_guard() {
     kani::cover!(!is_8x8 && mode == 5 && v == 26);
     kani::cover!(is_8x8 && r.is_ok() && v == 14);
     kani::cover!(is_8x8 && r.is_err());
+    std::mem::forget(r);
 }
